@@ -131,30 +131,48 @@ func (g *c29Gen) delay() int { return rapid.IntRange(0, 4000).Draw(g.t, "delay_u
 func genC29(t *rapid.T) c29Case {
 	c := c29Case{
 		Workers: rapid.IntRange(1, 3).Draw(t, "workers"),
-		Idents:  []int{2, 3, 5, 5, 5}[rapid.IntRange(0, 4).Draw(t, "idents")],
+		Idents:  []int{2, 3, 5, 5, 5, 5, 5, 5}[rapid.IntRange(0, 7).Draw(t, "idents")],
 	}
 	g := &c29Gen{t: t, c: &c}
 	nt := rapid.IntRange(1, 4).Draw(t, "ntemplates")
 	for i := 0; i < nt; i++ {
-		switch k := rapid.IntRange(0, 24).Draw(t, "template"); {
+		switch k := rapid.IntRange(0, 26).Draw(t, "template"); {
 		case k < 3: // a second request arrives while the first holds the session and then closes it
 			s := g.slot(true, false)
 			x, y := g.newClient(), g.newClient()
 			yID := fmt.Sprintf("c%d.0", y)
+			// up to two more requests queue behind the closer, in a drawn order: a DELETE (which then finds the
+			// session already closed) and a late use (which then waits behind that DELETE)
+			third, fourth := rapid.IntRange(0, 2).Draw(t, "third"), rapid.Bool().Draw(t, "fourth")
+			lastID := yID
+			z, u := -1, -1
+			if third > 0 {
+				z = g.newClient()
+				lastID = fmt.Sprintf("c%d.0", z)
+			}
+			if fourth {
+				u = g.newClient()
+				lastID = fmt.Sprintf("c%d.0", u)
+			}
 			op := g.own(s, "use")
 			op.ThenClose, op.Why = true, "queue-behind-close"
-			op.Hold = &c29Cond{Op: yID, Ev: "sent", DelayUs: g.delay()}
+			op.Hold = &c29Cond{Op: lastID, Ev: "sent", DelayUs: 500 + g.delay()}
 			xID := g.add(x, op)
 			op2 := g.own(s, "use")
 			op2.Why = "queue-behind-close"
 			op2.After = &c29Cond{Op: xID, Ev: "handler"}
 			g.add(y, op2)
-			if rapid.Bool().Draw(t, "third") {
-				z := g.newClient()
-				op3 := g.own(s, "use")
+			if z >= 0 {
+				op3 := g.own(s, []string{"", "use", "delete"}[third])
 				op3.Why = "queue-behind-close"
-				op3.After = &c29Cond{Op: xID, Ev: "handler", DelayUs: g.delay()}
+				op3.After = &c29Cond{Op: xID, Ev: "handler", DelayUs: rapid.IntRange(0, 800).Draw(t, "zdelay")}
 				g.add(z, op3)
+			}
+			if u >= 0 {
+				op5 := g.own(s, "use")
+				op5.Why = "queue-behind-close"
+				op5.After = &c29Cond{Op: xID, Ev: "handler", DelayUs: rapid.IntRange(600, 2500).Draw(t, "udelay")}
+				g.add(u, op5)
 			}
 			// a use sent strictly after the closing request completed
 			op4 := g.own(s, "use")
@@ -190,14 +208,31 @@ func genC29(t *rapid.T) c29Case {
 			s := g.slot(true, false)
 			x, d, y := g.newClient(), g.newClient(), g.newClient()
 			dID := fmt.Sprintf("c%d.0", d)
+			holdOn := dID
+			d2, u := -1, -1
+			if rapid.Bool().Draw(t, "twodeletes") {
+				// a second DELETE (finds the session gone) and a use queued behind it
+				d2, u = g.newClient(), g.newClient()
+				holdOn = fmt.Sprintf("c%d.0", u)
+			}
 			op := g.own(s, "use")
 			op.Why = "delete-while-held"
-			op.Hold = &c29Cond{Op: dID, Ev: "sent", DelayUs: g.delay()}
+			op.Hold = &c29Cond{Op: holdOn, Ev: "sent", DelayUs: 500 + g.delay()}
 			xID := g.add(x, op)
 			del := g.own(s, "delete")
 			del.Why = "delete-while-held"
 			del.After = &c29Cond{Op: xID, Ev: "handler"}
 			g.add(d, del)
+			if d2 >= 0 {
+				del2 := g.own(s, "delete")
+				del2.Why = "delete-while-held"
+				del2.After = &c29Cond{Op: xID, Ev: "handler", DelayUs: rapid.IntRange(300, 1000).Draw(t, "d2delay")}
+				g.add(d2, del2)
+				late := g.own(s, "use")
+				late.Why = "delete-while-held"
+				late.After = &c29Cond{Op: xID, Ev: "handler", DelayUs: rapid.IntRange(1200, 3000).Draw(t, "ldelay")}
+				g.add(u, late)
+			}
 			op2 := g.own(s, "use")
 			op2.Why = "delete-while-held"
 			op2.After = &c29Cond{Op: dID, Ev: []string{"sent", "done"}[rapid.IntRange(0, 1).Draw(t, "afterdel")], DelayUs: g.delay()}
@@ -207,7 +242,7 @@ func genC29(t *rapid.T) c29Case {
 			s := g.slot(true, false)
 			// same principal under another domain, and authenticated-with-empty-principal vs anonymous
 			special := -1
-			if c.Idents == 5 && rapid.Bool().Draw(t, "fspecial") {
+			if c.Idents == 5 && rapid.IntRange(0, 3).Draw(t, "fspecial") != 0 {
 				pair := [][2]int{{1, 3}, {3, 1}, {0, 4}, {4, 0}}[rapid.IntRange(0, 3).Draw(t, "fpair")]
 				c.Slots[s].Owner, special = pair[0], pair[1]
 			}
@@ -221,9 +256,13 @@ func genC29(t *rapid.T) c29Case {
 			nf := rapid.IntRange(1, 3).Draw(t, "nforeign")
 			for j := 0; j < nf; j++ {
 				f := g.newClient()
-				op := g.own(s, []string{"use", "use", "delete"}[rapid.IntRange(0, 2).Draw(t, "fkind")])
+				fkind, fhow := rapid.IntRange(0, 2).Draw(t, "fkind"), rapid.IntRange(0, 2).Draw(t, "fhow")
+				if special >= 0 && j == 0 {
+					fkind, fhow = 0, 0
+				}
+				op := g.own(s, []string{"use", "use", "delete"}[fkind])
 				op.Why = "foreign"
-				switch rapid.IntRange(0, 2).Draw(t, "fhow") {
+				switch fhow {
 				case 0:
 					op.Ident = (op.Ident + 1 + rapid.IntRange(0, c.Idents-2).Draw(t, "fident")) % c.Idents
 					if special >= 0 {
@@ -350,7 +389,7 @@ func genC29(t *rapid.T) c29Case {
 				}
 				g.add(g.newClient(), f)
 			}
-		case k < 24: // continuations (/exchange, incl. cancel) of a session-bearing stream presented by someone else
+		case k < 26: // continuations (/exchange, incl. cancel) of a session-bearing stream presented by someone else
 			s := g.slot(true, false)
 			x := g.newClient()
 			method := []string{"s29_prod", "s29_exch"}[rapid.IntRange(0, 1).Draw(t, "fcmethod")]
@@ -390,7 +429,7 @@ func genC29(t *rapid.T) c29Case {
 			cont := g.own(s, "stream-continue")
 			cont.Method, cont.Stream, cont.Why = method, xID, "foreign-continue"
 			cont.After = &c29Cond{Op: fids[len(fids)-1], Ev: "done"}
-			cont.Cancel = rapid.IntRange(0, 2).Draw(t, "fcowncancel") == 0
+			cont.Cancel = rapid.Bool().Draw(t, "fcowncancel")
 			g.add(x, cont)
 			g.add(x, g.own(s, "use"))
 		default: // open inside the history: plain, without Accept, panicking after opening, slow
